@@ -1,5 +1,5 @@
 PROPS["C14"] = {
-    "bounds": "accepted-parameters-then-first-use: aggregation interval/wait over all 16-bit values with and without regex; destination flush/reconnect/spool-sync periods over all 16-bit signed millisecond values, connbuf/iobuf/spoolbuf/maxBytesPerFile/syncEvery over 16-bit signed values (sizes capped at 16 to bound allocations), one free option at a time, spool and pickle on/off, then two lines through a connected destination; consistent-hashing route with 1..2 destinations emptied, then Dispatch; table with bad-metrics max age 0; (every other harness of every property also reports any reachable panic / exit as a violation: arbitrary lines through Table.Dispatch are covered by C02, pickle item shapes by C13, input framing by C12)",
+    "bounds": "accepted-parameters-then-first-use: aggregation interval/wait over all 16-bit values with and without regex; destination flush/reconnect/spool-sync periods over all 16-bit signed millisecond values, connbuf/iobuf/spoolbuf/maxBytesPerFile/syncEvery over 16-bit signed values (sizes capped at 16 to bound allocations), one free option at a time, spool and pickle on/off, then two lines through a connected destination; consistent-hashing route with 1..2 destinations emptied, then Dispatch; table with bad-metrics max age 0; pickle frames (1..2 frames, second possibly larger/malformed, one arbitrary cut) and plain-text streams of <= 4 arbitrary bytes through the real input handlers (harnesses shared with C13/C12); every other harness of every property also reports any reachable panic / exit as a violation (arbitrary lines through Table.Dispatch: C02; pickle item shapes: C13)",
     "outside": "admin command text and TOML text (lexing/decoding by toki / BurntSushi): parameters enter at the constructors that both syntaxes call; the web UI; kafka/pubsub/cloudwatch back ends; out-of-memory and goroutine leaks; grafanaNet constructor (reads files)",
     "assumptions": ["a parameter that cannot work must be refused with an error by the constructor (aggregator.New, destination.New, table.NewTableConfig) or be harmless at first use"],
     "groups": [
@@ -10,5 +10,11 @@ PROPS["C14"] = {
             spec("C14/params/aggregation/noregex", "VerifC14AggParams", {"regex": ""}, allow_no_assert=True, allow_no_ok=True)]},
         {"pkg": "destination", "hdir": "destination", "no_native": True, "specs": [spec("C14/params/destination", "VerifC14DestParams", allow_no_assert=True)]},
         {"pkg": "route", "hdir": "route", "specs": [spec("C14/params/hashring-emptied", "VerifC14HashRingEmptied", allow_no_assert=True)]},
+        # byte streams on the inputs (harnesses shared with C12 / C13: any reachable panic is a C14 violation)
+        {"pkg": "input", "hdir": "input", "specs": [
+            spec("C14/input/pickle/2-frames", "VerifC13Framing", {"reader": "cut1", "frames": "2", "first": "0"}),
+            spec("C14/input/pickle/item-shapes", "VerifC13Items", {"items": "2"}, tier="thorough"),
+            spec("C14/input/plain/L<=4", "VerifC12Plain", {"L": "4", "zeros": "0"}),
+        ]},
     ],
 }
